@@ -149,12 +149,22 @@ static void apply19(int ev) {
     retention19(e, NULL);
     M19.first_seen = 1;
 }
+/* retained beyond one node / one icon: still bounded retained state if a topology Reset gives it back (tried on a copy) */
+static int reclaimed_by_reset19(void) {
+    vf_snap *sn = vf_snapshot(&M19, sizeof M19);
+    uint32_t nt = W.ntrace, tu = W.trace_used, to = W.trace_overflow, st = W.sends_total;
+    pev r = ev_reset(0, ST_M1); drv_linux(&r, 0);
+    int ok = vf_live_blocks() <= base_blocks && vf_live_bytes() <= base_bytes;
+    vf_restore(sn, &M19, sizeof M19); free(sn);
+    W.ntrace = nt; W.trace_used = tu; W.trace_overflow = to; W.sends_total = st;
+    return ok;
+}
 static void retention19(const pev *e, const char *env) {
     newblocks = 0; newbytes = 0; vf_each_live(count_new, NULL);
     /* what a handler may keep: the interface record (first frame), one observation node (Probe/Train), the icon (QueryLargeTlv) */
     uint32_t allow = (M19.first_seen ? 0u : base_blocks) + ((e->opcode == 0x03 || e->opcode == 0x04) ? 1u : 0u) + ((e->opcode == 0x0B) ? 1u : 0u);
     char nm[200]; pev_name(e, nm, 150); if (env) { strcat(nm, " with "); strcat(nm, env); }
-    if (newblocks > allow) {
+    if (newblocks > allow && !reclaimed_by_reset19()) {
         char sig[96]; snprintf(sig, sizeof sig, "handler-retains-buffer:op=0x%02x%s", e->opcode, env ? ":transmit-refused" : "");
         vf_violation(sig, "%s: %u block(s) (%llu bytes) obtained while handling the frame are still allocated afterwards; at most %u can belong to the bounded retained state", nm, newblocks, (unsigned long long)newbytes, allow);
     }
